@@ -14,7 +14,9 @@ import (
 	"net/http/httptest"
 	"net/url"
 	"os"
+	"path/filepath"
 	"runtime/debug"
+	"sort"
 	"strings"
 	"sync"
 
@@ -27,8 +29,9 @@ import (
 func init() { register("simrun", simRun) }
 
 type mapResolver struct {
-	main    string
-	modules map[string]string
+	main      string
+	modules   map[string]string
+	stubNames bool // report a source name that differs from the include string
 }
 
 func (m *mapResolver) MainVCL() (*resolver.VCL, error) {
@@ -36,7 +39,11 @@ func (m *mapResolver) MainVCL() (*resolver.VCL, error) {
 }
 func (m *mapResolver) Resolve(stmt *ast.IncludeStatement) (*resolver.VCL, error) {
 	if d, ok := m.modules[stmt.Module.Value]; ok {
-		return &resolver.VCL{Name: stmt.Module.Value, Data: d}, nil
+		name := stmt.Module.Value
+		if m.stubNames {
+			name = "/abs/" + name + ".vcl"
+		}
+		return &resolver.VCL{Name: name, Data: d}, nil
 	}
 	return nil, fmt.Errorf("module %s not found", stmt.Module.Value)
 }
@@ -77,8 +84,19 @@ func simRun(args string) string {
 	if len(f) != 2 {
 		return "badreq"
 	}
-	r := &mapResolver{modules: map[string]string{}}
-	for i, m := range strings.Split(f[0], ",") {
+	// resolver kind (prefix of the module list):  map: (default) names are the include strings, VCL.Name = include string;
+	// stub: the same but VCL.Name = "/abs/<include string>.vcl"; file: the modules are written to disk as <name>.vcl
+	// (a name may contain directories; every directory becomes an include path) and resolved by resolver.NewFileResolvers
+	kind := "map"
+	spec := f[0]
+	for _, k := range []string{"map:", "stub:", "file:"} {
+		if strings.HasPrefix(spec, k) {
+			kind, spec = strings.TrimSuffix(k, ":"), strings.TrimPrefix(spec, k)
+		}
+	}
+	r := &mapResolver{modules: map[string]string{}, stubNames: kind == "stub"}
+	var order []string
+	for i, m := range strings.Split(spec, ",") {
 		name, hx, _ := strings.Cut(m, "=")
 		if i == 0 {
 			r.main = name
@@ -89,8 +107,41 @@ func simRun(args string) string {
 			src = strings.ReplaceAll(strings.ReplaceAll(src, "__BACKEND_HOST__", h), "__BACKEND_PORT__", p)
 		}
 		r.modules[name] = src
+		order = append(order, name)
 	}
-	ip := interpreter.New(icontext.WithResolver(r))
+	var ip *interpreter.Interpreter
+	if kind == "file" {
+		dir, err := os.MkdirTemp(os.Getenv("VERIF_TMP"), "inc")
+		if err != nil {
+			return "badreq tmp: " + err.Error()
+		}
+		defer os.RemoveAll(dir)
+		paths := map[string]bool{}
+		for _, name := range order {
+			fp := filepath.Join(dir, name+".vcl")
+			if err := os.MkdirAll(filepath.Dir(fp), 0o755); err != nil {
+				return "badreq mkdir"
+			}
+			if err := os.WriteFile(fp, []byte(r.modules[name]), 0o644); err != nil {
+				return "badreq write"
+			}
+			if d := filepath.Dir(fp); d != dir {
+				paths[d] = true
+			}
+		}
+		var ips []string
+		for p := range paths {
+			ips = append(ips, p)
+		}
+		sort.Strings(ips)
+		rs, err := resolver.NewFileResolvers(filepath.Join(dir, r.main+".vcl"), ips)
+		if err != nil {
+			return "badreq resolver: " + err.Error()
+		}
+		ip = interpreter.New(icontext.WithResolver(rs[0]))
+	} else {
+		ip = interpreter.New(icontext.WithResolver(r))
+	}
 	var out []string
 	for _, rq := range strings.Split(f[1], ";") {
 		method, hx, _ := strings.Cut(rq, "=")
